@@ -458,15 +458,15 @@ Lemma gstep_tracks_p y p :
   gstep (s_pend y) (A p) (snd (pstep true y p)) = s_pend (fst (pstep true y p)).
 Proof.
   destruct y as [c pend]. cbn [s_pend]. destruct p as [t name sz|t w now|t|r].
-  - cbn [pstep gstep s_pend s_c]. destruct (lookupP t pend) eqn:El; cbn [fst snd s_pend]; [rewrite El; reflexivity|].
-    cbn [cstep]. destruct (c_max c <? (c_total c + sz) mod W64); cbn [fst snd s_pend]; rewrite El; reflexivity.
+  - cbn [pstep gstep s_pend s_c]. destruct (lookupP t pend) eqn:El; cbn [fst snd s_pend]; [try rewrite El; reflexivity|].
+    cbn [cstep]. destruct (c_max c <? (c_total c + sz) mod W64); cbn [fst snd s_pend]; try rewrite El; reflexivity.
   - destruct (lookupP t pend) as [[name sz|sz]|] eqn:El.
     + rewrite (pend_result c pend t name sz w now El). cbn [gstep].
-      destruct (wt_succeeds (mkS c pend) name sz w) eqn:Ew; cbn [fst snd s_pend]; rewrite El; [reflexivity|].
+      destruct (wt_succeeds (mkS c pend) name sz w) eqn:Ew; cbn [fst snd s_pend]; try rewrite El; [reflexivity|].
       destruct w as [|len]; cbn [same_len]; [reflexivity|].
       destruct (N.eqb len sz); reflexivity.
-    + cbn [pstep gstep s_pend]. rewrite El. cbn [fst snd s_pend]. rewrite El. reflexivity.
-    + cbn [pstep gstep s_pend]. rewrite El. cbn [fst snd s_pend]. rewrite El. reflexivity.
+    + cbn [pstep gstep s_pend]. try rewrite El. cbn [fst snd s_pend]. try rewrite El. reflexivity.
+    + cbn [pstep gstep s_pend]. try rewrite El. cbn [fst snd s_pend]. try rewrite El. reflexivity.
   - cbn [pstep gstep s_pend s_c]. destruct (lookupP t pend) as [[name sz|sz]|] eqn:El;
       cbn [fst snd s_pend]; try rewrite El; reflexivity.
   - cbn [pstep gstep s_pend s_c]. destruct (cstep c r). reflexivity.
